@@ -261,6 +261,14 @@ func runRT(c RTCase) *h.Result {
 		}
 	}
 	b1, msg := parseText(sc, c.Via, text)
+	if c.Via == "discover" && (b1 == nil || refpath.Conforms(want, b1.Any) != "") {
+		// discover-json "attempts to discover" documents in other text: what it finds is not fixed by
+		// anything (it gives up on a DEL character inside a string, for example); only what it
+		// delivers complete is taken further
+		res.Classes = append(res.Classes, "discover:miss")
+		res.NonTrivial = false
+		return res
+	}
 	if b1 == nil {
 		return fail("%s of %q: %s", c.Via, text, msg)
 	}
@@ -429,7 +437,7 @@ func genWOpts(rt *rapid.T) WOpts {
 
 func genRT(rt *rapid.T) RTCase {
 	c := RTCase{}
-	c.Doc = genDoc(rt, rapid.IntRange(0, 5).Draw(rt, "maxdepth"), docOpts{wide: true, keys: keyTable})
+	c.Doc = genDoc(rt, rapid.SampledFrom([]int{0, 1, 2, 2, 3, 3, 4, 4, 5, 5}).Draw(rt, "maxdepth"), docOpts{wide: true, keys: keyTable})
 	c.Style = refpath.Style{
 		SEN:    rapid.Bool().Draw(rt, "sen"),
 		Esc:    rapid.SampledFrom([]int{0, 0, 1, 2}).Draw(rt, "esc"),
@@ -553,6 +561,41 @@ func descAfterMulti(fs []Frag) bool {
 	return false
 }
 
+// negUnionLast: the last fragment is a union with a negative index.
+func negUnionLast(fs []Frag) bool {
+	if len(fs) == 0 || fs[len(fs)-1].K != "union" {
+		return false
+	}
+	for _, m := range fs[len(fs)-1].U {
+		if m.K == "idx" && m.I < 0 {
+			return true
+		}
+	}
+	return false
+}
+
+// aliasUnionInside: a union before the last fragment with a negative and a non-negative index,
+// which can name one element twice.
+func aliasUnionInside(fs []Frag) bool {
+	for i, f := range fs {
+		if f.K != "union" || i == len(fs)-1 {
+			continue
+		}
+		neg, pos := false, false
+		for _, m := range f.U {
+			if m.K == "idx" && m.I < 0 {
+				neg = true
+			} else if m.K == "idx" {
+				pos = true
+			}
+		}
+		if neg && pos {
+			return true
+		}
+	}
+	return false
+}
+
 func pExcluded(c PCase) string {
 	if h.ExclOn("zero-exponent") {
 		ze := zeroExp(c.Doc)
@@ -568,6 +611,12 @@ func pExcluded(c PCase) string {
 	for _, o := range c.Ops {
 		if descAfterMulti(o.Path) && h.ExclOn("desc-after-multi") {
 			return "desc-after-multi"
+		}
+		if o.Kind == "remove" && negUnionLast(o.Path) && h.ExclOn("remove-union-negative") {
+			return "remove-union-negative"
+		}
+		if o.Kind == "remove" && aliasUnionInside(o.Path) && h.ExclOn("remove-union-alias") {
+			return "remove-union-alias"
 		}
 	}
 	return ""
@@ -852,6 +901,40 @@ func genOp(rt *rapid.T, doc Node) Op {
 	return o
 }
 
+// nodeSet follows a set in the generator's picture of the document (best effort: only where every
+// step but the last exists) so that later paths can lead into values stored earlier.
+func nodeSet(doc Node, fs []Frag, v Node) Node {
+	if len(fs) == 0 {
+		return v
+	}
+	f := fs[0]
+	out := doc
+	out.A = append([]Node(nil), doc.A...)
+	out.K = append([]string(nil), doc.K...)
+	switch {
+	case f.K == "key" && doc.T == "obj":
+		for i, k := range doc.K {
+			if k == f.S {
+				out.A[i] = nodeSet(doc.A[i], fs[1:], v)
+				return out
+			}
+		}
+		if len(fs) == 1 {
+			out.K = append(out.K, f.S)
+			out.A = append(out.A, v)
+		}
+	case f.K == "idx" && doc.T == "arr":
+		i := f.I
+		if i < 0 {
+			i += len(doc.A)
+		}
+		if i >= 0 && i < len(doc.A) {
+			out.A[i] = nodeSet(doc.A[i], fs[1:], v)
+		}
+	}
+	return out
+}
+
 func genPaths(rt *rapid.T) PCase {
 	c := PCase{}
 	c.Doc = genDoc(rt, rapid.IntRange(1, 4).Draw(rt, "maxdepth"), docOpts{keys: pathKeys[:12], plain: true})
@@ -859,9 +942,24 @@ func genPaths(rt *rapid.T) PCase {
 		c.Doc = Node{T: "obj", K: []string{"a", "b"}, A: []Node{{T: "arr", A: []Node{{T: "int", S: "1"}, {T: "obj", K: []string{"a"}, A: []Node{{T: "int", S: "2"}}}}}, c.Doc}}
 	}
 	n := rapid.IntRange(1, 6).Draw(rt, "nops")
-	// paths are drawn against the document as it is at the start; later operations meet whatever the earlier ones left
-	for i := 0; i < n; i++ {
-		c.Ops = append(c.Ops, genOp(rt, c.Doc))
+	// paths are drawn against the generator's picture of the document (the start document plus the
+	// simple sets so far); the operations meet whatever the earlier ones really left
+	cur := c.Doc
+	for len(c.Ops) < n {
+		o := genOp(rt, cur)
+		c.Ops = append(c.Ops, o)
+		if o.Kind == "set" {
+			if refpath.Simple(o.Path) {
+				cur = nodeSet(cur, o.Path, *o.Val)
+			}
+			if len(c.Ops) < n && rapid.IntRange(0, 2).Draw(rt, "look") > 0 {
+				// look at some other place afterwards
+				g := genOp(rt, cur)
+				g.Kind, g.Val = "get", nil
+				g.AsBag = rapid.Bool().Draw(rt, "look-asbag")
+				c.Ops = append(c.Ops, g)
+			}
+		}
 	}
 	return c
 }
@@ -893,11 +991,11 @@ func TestC18(t *testing.T) {
 	h.Assume("the contents of a bag are read from flavors.Instance.Any; Lisp forms are read and evaluated through slip.ReadString / Code.Eval with the bag, value and path bound as variables")
 
 	h.RunProp(t, rtGrid, 0)
-	h.RunProp(t, rtProp, h.N(12000, 400000))
+	h.RunProp(t, rtProp, h.N(30000, 900000))
 	h.RunProp(t, pathsGrid, 0)
-	h.RunProp(t, pathsProp, h.N(12000, 300000))
+	h.RunProp(t, pathsProp, h.N(30000, 700000))
 	h.RunProp(t, bridgeGrid, 0)
-	h.RunProp(t, bridgeProp, h.N(10000, 300000))
+	h.RunProp(t, bridgeProp, h.N(20000, 400000))
 	if h.C.Shard != 0 {
 		return
 	}
